@@ -474,10 +474,87 @@ static WD_DONE: AtomicBool = AtomicBool::new(false);
 
 const STALL_SECS: u64 = 10;
 
+/// CPU seconds (user + system) a process has used so far, and its resident set in KiB (None once it is gone).
+fn proc_cpu_and_rss(pid: u32) -> Option<(f64, u64)> {
+    let stat = std::fs::read_to_string(format!("/proc/{pid}/stat")).ok()?;
+    // the command name (field 2) may contain spaces: count from the closing parenthesis
+    let rest = &stat[stat.rfind(')')? + 2..];
+    let f: Vec<&str> = rest.split_whitespace().collect();
+    let ticks: u64 = f.get(11)?.parse::<u64>().ok()? + f.get(12)?.parse::<u64>().ok()?; // utime, stime
+    let rss_pages: u64 = f.get(21)?.parse().ok()?;
+    Some((ticks as f64 / 100.0, rss_pages * 4))
+}
+
+/// Confirmation of a suspected "no progress": the same decode alone in a fresh process.  The verdict does not depend on
+/// the wall clock: the decode is not coming back when the fresh process has *used* `STALL_SECS` seconds of CPU time on it
+/// (a decode of a few bytes needs microseconds) or has grown beyond 2 GiB; a process that gets no CPU time (machine
+/// stalled) proves nothing, however long it takes.
+enum Confirm {
+    Finished,
+    /// (reason)
+    DoesNotComeBack(String),
+    /// neither finished nor used the CPU time within a generous wall-clock limit
+    Undecided,
+}
+
+fn confirm_alone(d: usize, input: &[u8]) -> Confirm {
+    confirm_alone_with(&std::env::current_exe().unwrap().display().to_string(), d, input)
+}
+
+fn confirm_alone_with(exe: &str, d: usize, input: &[u8]) -> Confirm {
+    let mut child = std::process::Command::new(exe).arg("c02-one").arg(d.to_string()).arg(hex(input)).stdout(std::process::Stdio::null()).spawn().expect("spawn");
+    let t0 = std::time::Instant::now();
+    let verdict = loop {
+        if let Ok(Some(_)) = child.try_wait() {
+            break Confirm::Finished;
+        }
+        if let Some((cpu, rss_kb)) = proc_cpu_and_rss(child.id()) {
+            if cpu >= STALL_SECS as f64 {
+                break Confirm::DoesNotComeBack(format!("alone in a fresh process it has used {cpu:.0} s of CPU time without returning"));
+            }
+            if rss_kb > (2 << 20) {
+                break Confirm::DoesNotComeBack(format!("alone in a fresh process its resident set passed 2 GiB ({} MiB) without returning", rss_kb >> 10));
+            }
+        }
+        if t0.elapsed().as_secs() > 600 {
+            break Confirm::Undecided;
+        }
+        std::thread::sleep(std::time::Duration::from_millis(50));
+    };
+    let _ = child.kill();
+    let _ = child.wait();
+    verdict
+}
+
 fn watchdog_thread(nshards: usize, tier: String, seed: u64) {
     let mut last: Vec<(u64, std::time::Instant)> = (0..nshards).map(|_| (u64::MAX, std::time::Instant::now())).collect();
+    let mut overruns_that_finished_alone = 0u32;
     while !WD_DONE.load(Ordering::Relaxed) {
-        std::thread::sleep(std::time::Duration::from_millis(500));
+        std::thread::sleep(std::time::Duration::from_millis(100));
+        // memory running away is a trigger of its own: sixteen workers that allocate without end fill the machine
+        // long before any of them has been inside one call for ten seconds
+        let rss_kb = refcodec::runaway::rss_kb();
+        let memory_alarm = rss_kb > (3 << 20);
+        if memory_alarm {
+            // every worker goes on allocating while a confirmation runs: end this process now, with the calls in flight
+            // in a file; `./check` runs `zvtmon runaway-confirm C02 <file>`, which tries each of them alone
+            let mut suspects = vec![];
+            for s in 0..nshards {
+                let seq = WD_SEQ[s].load(Ordering::Acquire);
+                if seq % 2 == 1 && last[s].0 == seq && last[s].1.elapsed().as_millis() >= 200 {
+                    let p = WD_PTR[s].load(Ordering::Acquire);
+                    let n = WD_LEN[s].load(Ordering::Acquire);
+                    let d = WD_DEC[s].load(Ordering::Acquire);
+                    let input: Vec<u8> = unsafe { std::slice::from_raw_parts(p, n) }.to_vec();
+                    suspects.push(json!({"decoder": d, "name": decoder_name(d), "bytes": hex(&input), "inside_the_call_for_ms": last[s].1.elapsed().as_millis() as u64}));
+                }
+            }
+            if !suspects.is_empty() {
+                let j = json!({"reason": format!("the resident set has grown to {} MiB", rss_kb >> 10), "suspects": suspects});
+                let _ = std::fs::write(crate::codecprops::runaway_file("C02"), j.to_string());
+                std::process::exit(refcodec::runaway::EXIT_RUNAWAY);
+            }
+        }
         for s in 0..nshards {
             let seq = WD_SEQ[s].load(Ordering::Acquire);
             if seq % 2 == 0 {
@@ -494,42 +571,83 @@ fn watchdog_thread(nshards: usize, tier: String, seed: u64) {
                 let n = WD_LEN[s].load(Ordering::Acquire);
                 let d = WD_DEC[s].load(Ordering::Acquire);
                 let input: Vec<u8> = unsafe { std::slice::from_raw_parts(p, n) }.to_vec();
-                eprintln!("C02 watchdog: decoder {} has not returned for {STALL_SECS} s on a {n}-byte input; confirming in a fresh process", decoder_name(d));
-                let exe = std::env::current_exe().unwrap();
-                let mut child = std::process::Command::new(exe).arg("c02-one").arg(d.to_string()).arg(hex(&input)).spawn().expect("spawn");
-                let t0 = std::time::Instant::now();
-                let mut finished = false;
-                while t0.elapsed().as_secs() < STALL_SECS {
-                    if let Ok(Some(_)) = child.try_wait() {
-                        finished = true;
-                        break;
+                let why = if memory_alarm { format!("the resident set has grown to {} MiB", rss_kb >> 10) } else { format!("it has not returned for {STALL_SECS} s") };
+                eprintln!("C02 watchdog: decoder {} on a {n}-byte input: {why}; confirming in a fresh process", decoder_name(d));
+                let verdict = confirm_alone(d, &input);
+                if let (Confirm::Finished, false) = (&verdict, memory_alarm) {
+                    // slow once, fine alone: the machine was busy.  Go on (a worker that is really stuck is met again).
+                    overruns_that_finished_alone += 1;
+                    last[s] = (seq, std::time::Instant::now());
+                    if overruns_that_finished_alone < 50 {
+                        continue;
                     }
-                    std::thread::sleep(std::time::Duration::from_millis(100));
                 }
-                let _ = child.kill();
                 let mut r = Report::new("C02", &tier, seed, "exploration");
                 r.rule = "aborted by the progress watchdog".into();
                 r.evaluations = 1;
-                if finished {
-                    r.inconclusive(&format!("a decode of {} bytes by {} overran {STALL_SECS} s once but finished when re-run alone (machine load?)", n, decoder_name(d)));
-                } else {
-                    r.violation(
+                match verdict {
+                    Confirm::DoesNotComeBack(how) => r.violation(
                         &format!("{}: no progress", decoder_name(d)),
-                        &format!("decoding a {n}-byte input does not finish within {STALL_SECS} s (twice, second time alone in a fresh process)"),
+                        &format!("decoding a {n}-byte input does not come back: in the run {why}; {how}"),
                         json!({"kind": "decode", "decoder": decoder_name(d), "bytes": hex(&input)}),
-                    );
+                    ),
+                    Confirm::Finished => r.inconclusive(&format!("decodes by {} overran again and again in the run ({why}) but finish when re-run alone (machine load?)", decoder_name(d))),
+                    Confirm::Undecided => r.inconclusive(&format!("a decode of {n} bytes by {} did not return in the run ({why}); alone in a fresh process it neither finished nor used {STALL_SECS} s of CPU time within ten minutes (machine stalled?)", decoder_name(d))),
                 }
                 let code = r.finish();
+                // the release-build children may be running away as well
                 std::process::exit(code);
             }
         }
     }
 }
 
+/// `zvtmon runaway-confirm C02 <file>`: the run ended itself because memory ran away; every decode that was in flight is
+/// tried alone in a fresh process.
+pub fn confirm_file(ctx: &Ctx, file: &str) -> i32 {
+    let mut r = ctx.report("C02", "exploration");
+    r.rule = "the run ended itself because its memory ran away; every decode that was in flight is run again alone in a fresh process: one that uses 10 s of CPU time or grows beyond 2 GiB without returning is a violation, none => inconclusive".into();
+    r.evaluations = 1;
+    let text = std::fs::read_to_string(file).unwrap_or_default();
+    let _ = std::fs::remove_file(file);
+    let j: serde_json::Value = serde_json::from_str(&text).unwrap_or_default();
+    let reason = j["reason"].as_str().unwrap_or("?").to_string();
+    let mut confirmed = 0;
+    let mut seen = std::collections::BTreeSet::new();
+    for sus in j["suspects"].as_array().cloned().unwrap_or_default() {
+        let (Some(d), Some(hexs)) = (sus["decoder"].as_u64(), sus["bytes"].as_str()) else { continue };
+        if !seen.insert((d, hexs.to_string())) || seen.len() > 16 {
+            continue;
+        }
+        let input = refcodec::unhex(hexs).unwrap_or_default();
+        if let Confirm::DoesNotComeBack(how) = confirm_alone(d as usize, &input) {
+            confirmed += 1;
+            r.violation(
+                &format!("{}: no progress", decoder_name(d as usize)),
+                &format!("decoding a {}-byte input does not come back: in the run {reason}; {how}", input.len()),
+                json!({"kind": "decode", "decoder": decoder_name(d as usize), "bytes": hexs}),
+            );
+        }
+    }
+    if confirmed == 0 {
+        r.inconclusive(&format!("the run ended itself ({reason}); none of the decodes in flight did it again alone"));
+    }
+    r.finish()
+}
+
 // ---------------------------------------------------------------- entry points
 
 fn repo_path() -> String {
     std::env::var("VERIF_REPO_PATH").unwrap_or_else(|_| "/repo".into())
+}
+
+fn digest_suspect_file(shard: usize) -> String {
+    let work = std::env::var("VERIF_WORK").unwrap_or_else(|_| "/verif/.build/main".into());
+    format!("{work}/c02-release-suspect-{shard}.json")
+}
+
+fn parent_pid() -> u32 {
+    std::fs::read_to_string("/proc/self/status").ok().and_then(|t| t.lines().find(|l| l.starts_with("PPid:")).and_then(|l| l[5..].trim().parse().ok())).unwrap_or(0)
 }
 
 /// Child (plain release build): run shard `k` of the same workload and stream one digest per input.
@@ -539,12 +657,50 @@ pub fn digest_server() -> i32 {
     let seed: u64 = args[3].parse().unwrap();
     let shard: usize = args[4].parse().unwrap();
     let nshards: usize = args[5].parse().unwrap();
+    // a decode that does not come back in *this* build: the digests computed so far sit in the output buffer, so the
+    // parent would wait for them for ever.  This process watches its own worker: inside one call for 10 s, or the
+    // resident set beyond 1 GiB => the call in flight goes into a file and the process ends with exit code 3; the
+    // parent (which sees the digest stream end) tries that decode alone with this binary and gives the verdict.  It also
+    // ends when its parent is gone.
+    let suspect_file = digest_suspect_file(shard);
+    let _ = std::fs::remove_file(&suspect_file);
+    let ppid0 = parent_pid();
+    std::thread::spawn(move || {
+        let mut last: (u64, std::time::Instant) = (u64::MAX, std::time::Instant::now());
+        loop {
+            std::thread::sleep(std::time::Duration::from_millis(100));
+            if parent_pid() != ppid0 {
+                std::process::exit(0);
+            }
+            let seq = WD_SEQ[0].load(Ordering::Acquire);
+            if seq % 2 == 0 || last.0 != seq {
+                last = (seq, std::time::Instant::now());
+                continue;
+            }
+            let memory = refcodec::runaway::rss_kb() > (1 << 20);
+            if last.1.elapsed().as_secs() >= STALL_SECS || (memory && last.1.elapsed().as_millis() >= 200) {
+                let p = WD_PTR[0].load(Ordering::Acquire);
+                let n = WD_LEN[0].load(Ordering::Acquire);
+                let d = WD_DEC[0].load(Ordering::Acquire);
+                let input: Vec<u8> = unsafe { std::slice::from_raw_parts(p, n) }.to_vec();
+                let why = if memory { format!("the resident set has grown to {} MiB", refcodec::runaway::rss_kb() >> 10) } else { format!("it has not returned for {STALL_SECS} s") };
+                let _ = std::fs::write(&suspect_file, json!({"decoder": d, "bytes": hex(&input), "reason": why}).to_string());
+                std::process::exit(refcodec::runaway::EXIT_RUNAWAY);
+            }
+        }
+    });
     let schema = refcodec::zvt_schema();
     let corpus = build_corpus(&schema, seed, if quick { 8 } else { 24 }, &repo_path());
     let out = std::io::stdout();
     let mut w = std::io::BufWriter::with_capacity(1 << 20, out.lock());
     let mut emit = |d: usize, input: &[u8], _part: &str| {
-        let digest = match decode(d, input) {
+        WD_PTR[0].store(input.as_ptr() as *mut u8, Ordering::Release);
+        WD_LEN[0].store(input.len(), Ordering::Release);
+        WD_DEC[0].store(d, Ordering::Release);
+        WD_SEQ[0].fetch_add(1, Ordering::AcqRel); // odd: inside a call
+        let res = decode(d, input);
+        WD_SEQ[0].fetch_add(1, Ordering::AcqRel); // even: between calls
+        let digest = match res {
             Ok(h) => h,
             Err(p) => fnv(panic_signature(&p).as_bytes()) ^ 3,
         };
@@ -573,7 +729,7 @@ pub fn run(ctx: &Ctx) -> i32 {
     report.exhaustive = Some(false);
     report.assumptions = vec![
         "allocation bound judged: peak live bytes during one decode (Debug rendering of the result included) <= 64 x input length + 16 KiB".into(),
-        "no progress = one decode call still running after 10 s, twice (second time alone in a fresh process); a single overrun is inconclusive".into(),
+        "no progress = one decode call still running after 10 s in the run (or for 0.3 s while the resident set is beyond 3 GiB), and the same decode alone in a fresh process using 10 s of CPU time, or growing beyond 2 GiB, without returning; a decode that is slow in the run but finishes alone is the machine's load, not a verdict".into(),
         "debug/release differential: the plain release build of the same harness executes the identical workload; digests of Ok(Debug, remainder) | Err(variant) are compared input by input".into(),
     ];
     let schema = refcodec::zvt_schema();
@@ -605,6 +761,8 @@ pub fn run(ctx: &Ctx) -> i32 {
         let mut rd = child.as_mut().map(|c| BufReader::with_capacity(1 << 20, c.stdout.take().unwrap()));
         let mut max_ratio_num: usize = 0;
         let mut max_peak: usize = 0;
+        let mut release_dead = false;
+        let _ = std::fs::remove_file(digest_suspect_file(shard));
         let mut emit = |d: usize, input: &[u8], part: &str| {
             WD_PTR[shard].store(input.as_ptr() as *mut u8, Ordering::Release);
             WD_LEN[shard].store(input.len(), Ordering::Release);
@@ -642,7 +800,7 @@ pub fn run(ctx: &Ctx) -> i32 {
                 max_ratio_num = ratio;
             }
             // debug/release differential
-            if let Some(rd) = rd.as_mut() {
+            if let (Some(rd), false) = (rd.as_mut(), release_dead) {
                 let mut buf = [0u8; 8];
                 match rd.read_exact(&mut buf) {
                     Ok(()) => {
@@ -657,7 +815,29 @@ pub fn run(ctx: &Ctx) -> i32 {
                             r.count("differential_inputs_compared", 1);
                         }
                     }
-                    Err(_) => r.inconclusive("release-profile digest stream ended early (child crashed?)"),
+                    Err(_) => {
+                        // the release-build child ended: because one of its decodes did not come back?
+                        release_dead = true;
+                        let file = digest_suspect_file(shard);
+                        let sus = std::fs::read_to_string(&file).ok().and_then(|t| serde_json::from_str::<serde_json::Value>(&t).ok());
+                        let _ = std::fs::remove_file(&file);
+                        match (sus, rel_bin.as_ref()) {
+                            (Some(j), Some(bin)) => {
+                                let sd = j["decoder"].as_u64().unwrap_or(0) as usize;
+                                let sbytes = refcodec::unhex(j["bytes"].as_str().unwrap_or("")).unwrap_or_default();
+                                let why = j["reason"].as_str().unwrap_or("?").to_string();
+                                match confirm_alone_with(bin, sd, &sbytes) {
+                                    Confirm::DoesNotComeBack(how) => r.violation(
+                                        &format!("[release build] {}: no progress", decoder_name(sd)),
+                                        &format!("decoding a {}-byte input does not come back in the plain release build: in the run {why}; {how}", sbytes.len()),
+                                        json!({"kind": "decode", "decoder": decoder_name(sd), "bytes": hex(&sbytes), "build": "release"}),
+                                    ),
+                                    _ => r.inconclusive(&format!("the release-build child gave up on a decode by {} ({why}) that finishes when run alone", decoder_name(sd))),
+                                }
+                            }
+                            _ => r.inconclusive("release-profile digest stream ended early (child crashed?)"),
+                        }
+                    }
                 }
             }
             if r.wants_sample() && part == "structure-aware" && input.len() < 60 {
